@@ -1,4 +1,4 @@
 SPECIFICATION Spec
-CONSTANTS Ns = {4} MaxR = 3 Mashes = {1, 2} TofMashes = {0, 3}
+CONSTANTS Ns = {6} MaxR = 2 Mashes = {1, 3} TofMashes = {0, 3}
 INVARIANTS Inv10 Inv11 Inv12
 CHECK_DEADLOCK FALSE
